@@ -8,11 +8,13 @@
  *      asserted of the real operator++ for every j in the iteration obligations of that shape, so find/operator[]
  *      are checked against a callee contract that is discharged separately (DESIGN 5.1).
  *
- *  default            (proof obligations, ANY block length <= 2^16): one entry of a well-formed block described by
- *      ghost offsets (M_KO key start, M_KE key NUL, M_HASVAL, M_VE value NUL) with "no NUL inside key and value" as
- *      __CPROVER_forall facts (SMT back end, cvc5). Proved: every read stays inside the block (indeed inside
- *      [entry start, next key's NUL + 1]), nothing but the iterator is written, the scans terminate, and operator++
- *      lands EXACTLY on the next entry's key/value (or the null iterator); length() == block length. */
+ *  C17_FORALL         (proof obligations, ANY block length <= 2^16, SMT back end cvc5): one entry of a well-formed block
+ *      described by ghost offsets (M_KO key start, M_KE key NUL, M_HASVAL, M_VE value NUL) with "no NUL inside key and
+ *      value" as __CPROVER_forall facts. Proved: reads stay inside the block, nothing but the iterator is written, the
+ *      scans terminate, operator++ lands EXACTLY on the next entry's key/value (or the null iterator), length() == block length.
+ *
+ *  default            (same, quantifier-free, SAT back end; also carries the canaries, which need a model and therefore cannot
+ *      run on the quantified set): safety, frame, termination, result ranges; "no early stop" per arbitrary ghost offset M_G. */
 #ifndef CONTRACT_META_H
 #define CONTRACT_META_H
 #include <stddef.h>
@@ -43,8 +45,8 @@ static void MetaIterator_inc__by_contract(struct MetaIterator *self)
     else            { self->title = (const char *)0; self->value = nondet_c17_ptr(); }
 }
 
-#else
-/* ---------------------------------------------------------------- proof contracts (any block length) */
+#elif defined(C17_FORALL)
+/* ---------------------------------------------------------------- proof contracts, quantified (any block length; SMT back end cvc5): EXACT landing */
 #define M_MAXLEN ((size_t)1 << 16)
 extern const char *M_BLK;                   /* ghost: the block object (offset 0), M_LEN bytes */
 extern size_t M_LEN;
@@ -99,5 +101,81 @@ __CPROVER_requires(__CPROVER_forall { size_t qi; (2 <= qi && qi < M_T) ==> (M_BL
 __CPROVER_assigns()
 __CPROVER_ensures(__CPROVER_return_value == M_LEN)
 ;
+#define ADV_INV_EXTRA(t, v) 1
+
+#else
+/* ---------------------------------------------------------------- proof contracts, quantifier-free (any block length; SAT back end): safety, frame, termination, ranges, per-M_G landing */
+#define M_MAXLEN ((size_t)1 << 16)
+extern const char *M_BLK;                   /* ghost: the block object (offset 0), M_LEN bytes */
+extern size_t M_LEN;
+extern size_t M_KO, M_KE, M_VE, M_G;        /* ghost offsets of ONE entry: key start, key NUL, value NUL; arbitrary offset M_G */
+extern int    M_HASVAL;
+#define M_E   (M_HASVAL ? M_VE : M_KE)      /* the NUL that ends the entry */
+
+#define M_BLOCK_OK (M_LEN <= M_MAXLEN && M_OFF(M_BLK) == 0 && __CPROVER_OBJECT_SIZE(M_BLK) == M_LEN)
+/* the facts wf_block (spec/meta_spec.h) gives about one entry and the byte after it, over the ghost offsets */
+#define M_ENTRY_WF ( M_BLOCK_OK && M_KO >= 1 && M_KO < M_KE && M_KE < M_LEN \
+    && M_BLK[M_KO] != 0 && M_BLK[M_KO] != ':' && M_BLK[M_KE] == 0 \
+    && M_KE + 1 < M_LEN \
+    && (M_HASVAL ? (M_BLK[M_KE + 1] == '=' && M_KE + 2 <= M_VE && M_VE < M_LEN && M_VE + 1 < M_LEN && M_BLK[M_VE] == 0) \
+                 : (M_BLK[M_KE + 1] == ':' || M_BLK[M_KE + 1] == 0)) \
+    && (M_BLK[M_E + 1] == ':' || M_BLK[M_E + 1] == 0) )
+/* wf_block also says: no NUL inside the key and inside the value. Stated for the arbitrary offset M_G (the forall):
+ * M_G is not a place where the scan of operator++ may stop, i.e. not (previous byte NUL and this byte NUL or ':') */
+#define M_G_IN_ENTRY   (M_G >= M_KO && M_G <= M_E)
+#define M_G_NOT_A_STOP (M_G == M_KO ? true : (M_BLK[M_G - 1] != 0 || (M_BLK[M_G] != 0 && M_BLK[M_G] != ':')))
+#define M_G_NONZERO_IN_KEY (M_G < M_KO || M_G >= M_KE || M_BLK[M_G] != 0)
+
+/* metaiterator_advance(title, value): title is NULL, or points into the block at or before a NUL at ghost offset A_KE that
+ * has one more byte behind it (for a well-formed block: the key's NUL; own ghost A_KE because operator++ calls it on the
+ * NEXT entry). Safety needs no more; the value clause is per arbitrary offset M_G. */
+extern size_t A_KE;
+#define A_WF(t) (M_BLOCK_OK && __CPROVER_same_object((t), M_BLK) && M_OFF(t) <= A_KE && A_KE < M_LEN && A_KE + 1 < M_LEN && M_BLK[A_KE] == 0)
+void metaiterator_advance(const char **title__p, const char **value__p)
+__CPROVER_requires(__CPROVER_rw_ok(title__p, sizeof(*title__p)) && __CPROVER_rw_ok(value__p, sizeof(*value__p)) && title__p != value__p)
+__CPROVER_requires(*title__p == (const char *)0 || A_WF(*title__p))
+__CPROVER_assigns(*value__p)
+__CPROVER_ensures(*title__p == __CPROVER_old(*title__p))
+__CPROVER_ensures(*title__p != (const char *)0 || *value__p == (const char *)0)
+/* a value, if reported, starts behind a "NUL '='" pair inside [title, A_KE+1], and the byte at the arbitrary offset M_G between title
+ * and that NUL is not NUL: with M_G arbitrary, the NUL is the FIRST one, i.e. "the value is exactly what follows the key and '='" */
+__CPROVER_ensures(*title__p == (const char *)0 || *value__p == (const char *)0 ||
+                  (__CPROVER_same_object(*value__p, M_BLK) && M_OFF(*value__p) >= M_OFF(*title__p) + 2 && M_OFF(*value__p) <= A_KE + 2
+                   && (M_G < M_OFF(*title__p) || M_G >= M_OFF(*value__p) - 2 || M_BLK[M_G] != 0)
+                   && M_BLK[M_OFF(*value__p) - 1] == '=' && M_BLK[M_OFF(*value__p) - 2] == 0))
+;
+
+/* operator++ from the ghost entry: stays inside the block, ends at NULL or behind a "NUL ':'" pair inside the entry range
+ * that is not at M_G. A_KE: the NUL of the next entry's key if there is a next entry, else the entry's own final NUL. */
+void MetaIterator_inc(struct MetaIterator *self)
+__CPROVER_requires(__CPROVER_rw_ok(self, sizeof(*self)))
+__CPROVER_requires(M_ENTRY_WF && __CPROVER_same_object(self->title, M_BLK) && M_OFF(self->title) == M_KO)
+__CPROVER_requires(M_BLK[M_E + 1] == ':' ? (A_KE >= M_E + 3 && A_KE < M_LEN && A_KE + 1 < M_LEN && M_BLK[A_KE] == 0) : A_KE == M_E)
+__CPROVER_requires(!M_G_IN_ENTRY || M_G_NOT_A_STOP)                                     /* no NUL inside key and value: M_G is no stopping place */
+__CPROVER_assigns(self->title, self->value)
+__CPROVER_ensures(self->title == (const char *)0 ||
+                  (__CPROVER_same_object(self->title, M_BLK) && M_OFF(self->title) >= M_KO + 1 && M_OFF(self->title) <= M_E + 2
+                   && (!M_G_IN_ENTRY || M_OFF(self->title) != M_G + 1)
+                   && M_BLK[M_OFF(self->title) - 1] == ':' && M_BLK[M_OFF(self->title) - 2] == 0))
+/* a value is only reported with a title, and then follows a "NUL '='" behind that title */
+__CPROVER_ensures(self->value == (const char *)0 ||
+                  (self->title != (const char *)0 && __CPROVER_same_object(self->value, M_BLK) && M_OFF(self->value) >= M_OFF(self->title) + 2
+                   && M_OFF(self->value) <= A_KE + 2 && M_BLK[M_OFF(self->value) - 1] == '='))
+;
+
+/* MetaContainer::length() for a container that Port::meta() produced from the block: str_ptr == block + 1 */
+extern size_t M_T;                          /* ghost: offset of the block terminator, M_LEN == M_T + 1 */
+size_t MetaContainer_length(const struct MetaContainer *self)
+__CPROVER_requires(__CPROVER_r_ok(self, sizeof(*self)))
+__CPROVER_requires(M_BLOCK_OK && M_T >= 3 && M_LEN == M_T + 1 && __CPROVER_same_object(self->str_ptr, M_BLK) && M_OFF(self->str_ptr) == 1
+                   && M_BLK[0] == ':' && M_BLK[1] != 0 && M_BLK[1] != ':' && M_BLK[M_T] == 0 && M_BLK[M_T - 1] == 0)
+/* no earlier "NUL NUL": for the arbitrary offset M_G */
+__CPROVER_requires(M_G < 2 || M_G >= M_T || M_BLK[M_G - 1] != 0 || M_BLK[M_G] != 0)
+__CPROVER_assigns()
+/* 3 <= result <= block length, and the result is not M_G + 1 for any M_G before the terminator: with M_G arbitrary, result == block length */
+__CPROVER_ensures(__CPROVER_return_value >= 3 && __CPROVER_return_value <= M_LEN && (M_G >= M_T || __CPROVER_return_value != M_G + 1))
+;
+/* loop invariant piece of metaiterator_advance: the arbitrary offset M_G between title and cursor is not NUL */
+#define ADV_INV_EXTRA(t, v) (M_G < M_OFF(t) || M_G >= M_OFF(v) || M_BLK[M_G] != 0)
 #endif
 #endif
